@@ -86,7 +86,8 @@ pub fn gen_rule(rng: &mut Rng, in_class: bool, extended: bool, limit: i32) -> Ru
             0..=5 => 3600,
             6 => 1800,
             7 => 7200,
-            8 => -3600, // negative DST (Ireland style)
+            8 if rng.chance(1, 4) => 0, // "DST" that changes only the name and the flag
+            8 => -3600,                // negative DST (Ireland style)
             _ => rng.range(-7200, 10_800) as i32,
         };
         let dst_off = (std_off as i64 + delta as i64).clamp(-(limit as i64), limit as i64) as i32;
